@@ -198,6 +198,7 @@ impl Pager {
     pub fn open(path: impl AsRef<Path>) -> Result<Self> {
         let path = path.as_ref().to_path_buf();
         let existed = path.exists();
+        vio!(Create { path: path.clone() });
         let file = OpenOptions::new()
             .read(true)
             .write(true)
@@ -208,6 +209,7 @@ impl Pager {
         if !existed || file.metadata()?.len() == 0 {
             let meta = Meta::new();
             let bitmap = Bitmap::new();
+            vio!(SetLen { path: path.clone(), len: (PAGE_SIZE * 2) as u64 });
             file.set_len((PAGE_SIZE * 2) as u64)?;
 
             let mut pager = Self {
@@ -275,16 +277,20 @@ impl Pager {
             }
         }
 
+        vio!(Create { path: target_path.to_path_buf() });
         let out = OpenOptions::new()
             .write(true)
             .create_new(true)
             .truncate(false)
             .open(target_path)?;
 
+        vio!(SetLen { path: target_path.to_path_buf(), len: new_next_page_id.saturating_mul(PAGE_SIZE as u64) });
         out.set_len(new_next_page_id.saturating_mul(PAGE_SIZE as u64))?;
 
         let meta_page = meta.encode_page();
+        vio!(Write { path: target_path.to_path_buf(), offset: 0, data: meta_page.to_vec(), owner: "meta" });
         write_page_raw(&out, META_PAGE_ID, &meta_page)?;
+        vio!(Write { path: target_path.to_path_buf(), offset: PAGE_SIZE as u64, data: bitmap.data.to_vec(), owner: "bitmap" });
         write_page_raw(&out, BITMAP_PAGE_ID, &bitmap.data)?;
 
         for p in reachable {
@@ -292,9 +298,11 @@ impl Pager {
                 continue;
             }
             let page = self.read_page(*p)?;
+            vio!(Write { path: target_path.to_path_buf(), offset: p.as_u64() * PAGE_SIZE as u64, data: page.to_vec(), owner: "vacuum" });
             write_page_raw(&out, *p, &page)?;
         }
 
+        vio!(Sync { path: target_path.to_path_buf() });
         out.sync_data()?;
 
         Ok(VacuumCopyStats {
@@ -390,6 +398,7 @@ impl Pager {
             self.meta.next_page_id = candidate + 1;
         }
 
+        vio!(PageAlloc { path: self.path.clone(), page: candidate, owner: crate::verif::current_owner() });
         self.ensure_allocated(PageId::new(candidate))?;
         Ok(PageId::new(candidate))
     }
@@ -400,6 +409,7 @@ impl Pager {
             return Err(Error::PageNotAllocated(page_id.as_u64()));
         }
 
+        vio!(PageFree { path: self.path.clone(), page: page_id.as_u64() });
         self.bitmap.set_allocated(page_id, false);
         self.flush_meta_and_bitmap()?;
         Ok(())
@@ -422,11 +432,13 @@ impl Pager {
             return Err(Error::PageNotAllocated(page_id.as_u64()));
         }
 
+        vio!(Write { path: self.path.clone(), offset: page_id.as_u64() * PAGE_SIZE as u64, data: page.to_vec(), owner: crate::verif::current_owner() });
         write_page_raw(&self.file, page_id, page)?;
         Ok(())
     }
 
     pub fn sync(&mut self) -> Result<()> {
+        vio!(Sync { path: self.path.clone() });
         self.file.sync_data()?;
         Ok(())
     }
@@ -445,6 +457,7 @@ impl Pager {
         let required_bytes = (page_id.as_u64() + 1) * PAGE_SIZE as u64;
         let current_len = self.file.metadata()?.len();
         if current_len < required_bytes {
+            vio!(SetLen { path: self.path.clone(), len: required_bytes });
             self.file.set_len(required_bytes)?;
         }
 
@@ -460,10 +473,13 @@ impl Pager {
 
     fn flush_meta_and_bitmap(&mut self) -> Result<()> {
         let meta_page = self.meta.encode_page();
+        vio!(Write { path: self.path.clone(), offset: 0, data: meta_page.to_vec(), owner: "meta" });
         write_page_raw(&self.file, META_PAGE_ID, &meta_page)?;
+        vio!(Write { path: self.path.clone(), offset: PAGE_SIZE as u64, data: self.bitmap.data.to_vec(), owner: "bitmap" });
         write_page_raw(&self.file, BITMAP_PAGE_ID, &self.bitmap.data)?;
         // Ensure meta + bitmap durability. WAL replay can recover data pages, but
         // durable metadata reduces recovery work and avoids pathological re-scan.
+        vio!(Sync { path: self.path.clone() });
         self.file.sync_data()?;
         Ok(())
     }
